@@ -85,6 +85,38 @@ def gen_texts(rng, tier):
     return texts
 
 
+def damaged_block_texts():
+    """/begin .. /end structure damaged inside IF_DATA (read uninterpreted and under a definition) and inside ordinary blocks: the tag
+    behind /begin deleted, replaced by a string / number / /end, /begin doubled, input cut behind /begin.  Each text is loaded
+    in BOTH modes (a reader that only logs the problem in non-strict mode must still get past it)."""
+    hdr = 'ASAP2_VERSION 1 71 /begin PROJECT p "" /begin MODULE m "" '
+    ftr = ' /end MODULE /end PROJECT'
+    aml = '/begin A2ML block "IF_DATA" taggedunion { "XCP" struct { uint; taggedstruct { block "SEG" struct { uint; }; "K" uint; }; }; }; /end A2ML '
+    bodies = ['XCP 1 /begin SEG 2 /end SEG K 3', 'XCP /begin SEG 1 2 /end SEG', 'VENDOR /begin SEG 1 /begin INNER "a" /end INNER /end SEG 5']
+    out = []
+    for a in ('', aml):
+        for body in bodies:
+            toks = body.split(' ')
+            for i, t in enumerate(toks):
+                if t != '/begin':
+                    continue
+                variants = [toks[:i + 1] + toks[i + 2:],                       # tag deleted
+                            toks[:i + 1] + ['"text"'] + toks[i + 2:],           # tag replaced by a string
+                            toks[:i + 1] + ['17'] + toks[i + 2:],               # ... by a number
+                            toks[:i + 1] + ['/end'] + toks[i + 2:],             # ... by /end
+                            toks[:i + 1] + ['/begin'] + toks[i + 1:],           # /begin doubled
+                            toks[:i + 1] + ['/* c */'] + toks[i + 1:],          # a comment between /begin and its tag
+                            toks[:i + 1]]                                       # cut behind /begin (block closed below)
+                for vt in variants:
+                    out.append(hdr + a + '/begin IF_DATA ' + ' '.join(vt) + ' /end IF_DATA' + ftr)
+                out.append(hdr + a + '/begin IF_DATA ' + ' '.join(toks[:i + 1]))  # end of input behind /begin
+    for blk in ('/begin MEASUREMENT m1 "" UBYTE NO_COMPU_METHOD 0 0 0 255 /begin %s /end MEASUREMENT', '/begin %s /end MODULE',
+                '/begin GROUP g "" /begin %s FUNCTION_LIST /end GROUP'):
+        for tag in ('', '"s"', '1', '/end', '/begin', '/begin X /end X'):
+            out.append(hdr + (blk % tag) + ftr)
+    return out
+
+
 def ladders(tier):
     out = []
     depths = [10, 100, 1000, 5000] + ([20000, 200000] if True else [])
@@ -115,6 +147,10 @@ def check(tier, seed):
     tuples = []
     for t in texts:
         tuples.append((t, rng.random() < 0.5, None, 0))
+    for t in damaged_block_texts():
+        for strict in (False, True):
+            texts.append(t)
+            tuples.append((t, strict, None, 0))
     t1 = time.time()
     res, lines = loadlib.run_impl(tuples, impl, timeout=240 if tier == 'quick' else 1800)
     # re-run died shards case by case (a load that does not end within the limit counts as died: "never hangs")
